@@ -6,21 +6,54 @@ import subprocess
 
 VERIF = os.path.dirname(os.path.abspath(__file__))
 
+ENUM = "bounded-exhaustive enumeration of structured input families against a reference model (explicit enumeration, no sampling, no solver)"
+BFS = "explicit-state BFS over API call histories on the real objects (states merged by context byte image, canon-on-replay), reference model in lock step"
+
 ENGINES = [
-    {"name": "dp", "path": "harness/h_dp.c", "serves_properties": ["C01", "C02", "C03", "C07", "C10"],
-     "kind_free_text": "bounded-exhaustive differential exploration of the real block functions against an independent specification model over structured input families"},
+    {"name": "dp", "path": "harness/h_dp.c, harness/h_par.c, harness/h_keylen.c, harness/families.c", "serves_properties": ["C01", "C02", "C03", "C04", "C07", "C10", "C14"],
+     "kind_free_text": "bounded-exhaustive differential exploration of the real functions against an independent specification model over structured input families, every block count, every key length"},
+    {"name": "apimc", "path": "harness/mc.c, harness/alloc.c, harness/obj.c, harness/h_ctr.c, harness/h_sched.c, harness/h_life.c", "serves_properties": ["C03", "C04", "C05", "C06", "C14", "C15", "C16", "C17"],
+     "kind_free_text": "explicit-state exploration of API histories on the real objects: BFS, states = histories replayed on fresh objects and merged by context byte image, forked child with crash/hang attribution, page allocator with ledger, guard pages, wipe check and fault injection behind a link-time seam"},
 ]
 
-# property -> dict(level, text, note, technique, engine, design_ref, thorough)
+# property -> dict(level, text, note, technique, engine, design_ref)
 CHECKS = {
-    "C01": dict(level="exploration", engine="dp", design_ref="4/C01",
-                technique="bounded-exhaustive enumeration of structured input families against a reference model (explicit enumeration, no sampling, no solver)",
+    "C01": dict(level="exploration", engine="dp", design_ref="4/C01", technique=ENUM,
                 text="Every case of the BG/BYTE/PAIR/BIT(/ADJ) families over key||block is executed on the real set_key + ecb_encrypt/decrypt of all six variants, on the 64-bit-word and the 32-bit-word builds, and compared with an independent specification model that is bound to the six published vectors. The families force every S-box input at every lane, every tweakey byte value at every position and every LFSR/permutation input in round 1 (and in the last inverse round), so a constant or mask error in any of those components is hit deterministically. It is a coverage statement over ~10^6 (quick) / ~10^8 (thorough) cases, not a proof over 2^512 pairs.",
                 note="Trusted: ref/ref_skinny.c as the specification (checked at start-up against the published vectors and S-box tables); gcc; the repository Makefile. Inputs outside the families are not covered."),
-    "C02": dict(level="exploration", engine="dp", design_ref="4/C02",
-                technique="bounded-exhaustive enumeration of structured input families against a reference model (explicit enumeration, no sampling, no solver)",
+    "C02": dict(level="exploration", engine="dp", design_ref="4/C02", technique=ENUM,
                 text="The same families over key||tweak||block for rounds 5..8 x {encrypt, decrypt schedule} x {tweak stored in the schedule, tweak passed with the call}, plus fresh-schedule and null-tweak cases, on both word-size builds, against an independent MANTIS model bound to the four published vectors in both directions.",
                 note="Trusted: ref/ref_mantis.c as the specification; inputs outside the families are not covered."),
+    "C03": dict(level="model_checking", engine="apimc", design_ref="4/C03", technique=BFS + "; plus enumeration of round trips over the input families",
+                text="The Mantis schedule under {set_key(2 keys x rounds 5..8 x 2 modes), set_tweak, swap_modes} and the Mantis parallel object under {set_key, swap_modes} have finite reachable sets, which are explored to a fixpoint: in every reachable state and on every outgoing transition the schedule image must equal a fresh set_key in the current mode plus the last tweak, and the behaviour must equal the specification in that mode. That decides the mode-switch part for all finite histories over the alphabet. The round-trip part is decided by enumeration: D(E(x)) and E(D(y)) over the structured families through every single-block function and through the parallel functions on every back end for block counts around the batch size.",
+                note="Closure is over the stated key/tweak alphabets; round trips over the families only."),
+    "C04": dict(level="model_checking", engine="apimc", design_ref="4/C04", technique=BFS,
+                text="Closure of the tweakable SKINNY-128/64 schedules (directly, and inside CTR objects of every back end) under set_tweaked_key and set_tweak over a tweak alphabet with every length 1..B and null pointers (thorough: every byte value at every position). Every reachable state x every alphabet element is executed; on each transition the defined schedule image must equal a fresh key plus one set_tweak(last), the round count must be the specified one and encrypt/decrypt of a block family must equal the specification cipher with TK1 = zero-padded last tweak and the tweak-domain constant. Because the reachable set closes, this covers all finite tweak histories over the alphabet. Conformance of fresh schedules is additionally enumerated over tweak||key||block families on both word-size builds.",
+                note="Tweaks outside the alphabet are not covered; the tweak-domain constant has no published vector (cross-checked by C19 once built)."),
+    "C05": dict(level="model_checking", engine="apimc", design_ref="4/C05", technique=BFS,
+                text="BFS over CTR histories {init, set_key | set_tweaked_key (+set_tweak), set_counter, encrypt(len), second set_counter} on real objects of every back end in lock step. States are merged by the context byte image, so every way of cutting a stream into pieces from LENS that reaches the same number of consumed bytes collapses into one state and each piece size is checked from each such state: the exploration covers all cuts over LENS up to 2*batch+B+1 bytes, for counters with carries through every byte, wrap-around, short, null and the post-init default. Oracle: out = in xor E(c+i) from the reference ciphers, return 1, no write past the length, in-place and out-of-place.",
+                note="Keys/tweaks/counters outside the alphabets and streams longer than the bound are not covered (keystream state is periodic in the batch)."),
+    "C06": dict(level="model_checking", engine="apimc", design_ref="4/C06", technique=BFS + " (oracle: pairwise equality across back ends)",
+                text="One object per available back end (generic, 128-bit, 256-bit; pinned through a link-time seam that never exceeds the host CPU) is driven in lock step through a BFS whose alphabet adds what C05 excludes: key / tweaked-key / tweak changes in the middle of a stream with no counter reset, data calls before any key, tweak changes on a plain schedule, calls after cleanup, the invalid-call menu. Every return value and every output byte must agree across back ends. The parallel-ECB half runs all byte counts 0..25 blocks (+1/-1), both directions, and zeroed / unkeyed / cleaned-up / rejected-key / NULL objects in lock step.",
+                note="Back ends the host cannot execute (NEON) are outside; the defined CTR regime is decided against the model by C05."),
+    "C07": dict(level="exploration", engine="dp", design_ref="4/C07", technique="exhaustive enumeration of block counts and batch byte sweeps against the single-block functions",
+                text="Every block count 0..25 x {encrypt, decrypt} x in-place/out-of-place x data families with per-block distinct contents x key configurations x every back end, plus a BYTE sweep through one full batch (every byte value at every position of several lanes), compared block by block with the single-block functions (Mantis: independent tweak per block). Byte counts that are not whole blocks must return 0 and leave the output untouched; parallel_size must be the positive multiple of the block size that belongs to the back end.",
+                note="Single-block functions are tied to the specification by C01/C02; counts above 3P+1 not run."),
+    "C10": dict(level="exploration", engine="dp", design_ref="4/C10", technique="exhaustive enumeration of key lengths x entry points against the zero-padded key and the reference model",
+                text="Every key length 0..64 plus far-out lengths through all ten SKINNY key-setting entry points on every back end (and sizes x rounds x modes through the three Mantis ones), on the shipped, 32-bit-word and -O0 builds. Accepted lengths must give the same schedule image, the same ciphertexts and the specification's result for the same bytes zero-padded to the next primary size, with the stack painted differently before the two calls. Rejected lengths must return 0 with the existing object byte-identical, and the key is a single byte flush against a PROT_NONE page so that rejection has to precede any read.",
+                note="Key contents: two fills plus byte sweeps over the bytes beyond the last primary boundary."),
+    "C14": dict(level="model_checking", engine="apimc", design_ref="4/C14", technique=BFS + "; plus an enumerated invalid-call menu for schedules and parallel objects",
+                text="BFS over valid CTR histories (zeroed handle, initialised, keyed, counter set, mid-stream, cleaned up) with every class of invalid call applied in every reachable state, on every back end: the call must return 0, the handle+context byte image must be identical before and after (which makes every continuation identical), allocator slack must be untouched and nothing may crash (crashes are attributed to the exact history by the forked explorer). Valid calls must return 1 and documented NULL meanings must work. Schedules and parallel objects get the same treatment by enumeration over their (small) state sets.",
+                note="Void functions on NULL objects are only demanded where documented. Calls on failed-to-initialise objects are decided by C16."),
+    "C15": dict(level="model_checking", engine="apimc", design_ref="4/C15", technique=BFS + " with an allocator ledger oracle",
+                text="All histories up to depth 6 (thorough 8) over {init, setup calls, use, cleanup} x two objects of each of the six kinds on each back end. The library's allocator calls go to a page allocator through a link-time seam: the ledger shows that each init allocates, each cleanup frees exactly the object's blocks once with the pointer the allocator returned, cleanup of zeroed / cleaned-up objects makes no allocator call, and live blocks always equal the blocks owned by live objects; freed pages are PROT_NONE so any touch after cleanup faults and is attributed to its history; calls on dead objects must return 0; re-initialised contexts must equal first initialisation.",
+                note="Histories beyond the depth bound are not explored; caller-side leaks (init over a live object) are excluded from the alphabet."),
+    "C16": dict(level="fault_enumeration", engine="apimc", design_ref="4/C16", technique="exhaustive fault injection at the allocation seam x follow-up call sequences",
+                text="For each of the six init functions, each back end and each prior content of the caller's object (zeros, 0xFF, 0xA5, byte copy of a live object, byte copy of a cleaned-up object) every allocation request of the init is made to fail, then every sequence of up to three follow-up calls is applied and the object is re-initialised and used. Init must return 0, leave no block behind, and no later call may fault, return non-zero or free memory it does not own - a live neighbour object whose pointer the stale handle may contain makes a wild free observable.",
+                note="One allocation request per init was observed on every back end; faults are injected at the libc boundary."),
+    "C17": dict(level="model_checking", engine="apimc", design_ref="4/C17", technique=BFS + " with a wipe check at free()",
+                text="BFS (depth <= 8) over set-up and data calls ending in cleanup for each object kind and back end, on the shipped gcc -O3 build and on a clang -O3 build. At the wrapped free() every byte of the block (whole allocation, alignment slack and base pointer included) must be zero; cases count as non-trivial only when the block held key-dependent non-zero bytes before cleanup.",
+                note="Only memory handed to free() is inspected."),
 }
 
 NOT_YET = "check not built yet in this round (see DESIGN.md section 4 for the plan)"
